@@ -514,12 +514,15 @@ class CFG:
             val._trim_cache[bottomup_only] = val
             return val
 
-        T = {self.S}
+        # a non-generating start symbol has no useful rule at all
+        T = {self.S} if self.S in C else set()
         agenda.update(T)
         while agenda:
             x = agenda.pop()
             for e in incoming[x]:
                 # assert e.head in T
+                if not all((b in C) for b in e.body):
+                    continue  # a rule with a non-generating symbol reaches nothing
                 for b in e.body:
                     if b not in T and b in C:
                         T.add(b)
